@@ -9,6 +9,7 @@ package main
 import (
 	"fmt"
 	"go/ast"
+	"go/constant"
 	"go/token"
 	"go/types"
 	"os"
@@ -147,9 +148,41 @@ func propC18(p *Prog, r *Report) {
 				if b < a {
 					continue // the mirror is sorted: arr[n+1] is not before arr[n]
 				}
-				env := &Env{P: p, Pkg: fi.Pkg, Vars: map[types.Object]*Val{seqObj: intVal(probe)}}
+				// the window is a value: positions [lo, hi) of the mirror. Re-slicing, derived slices (upper :=
+				// arr[n+1:]), len and indexing are computed on it, so the step may be written with any locals.
+				L := int64(5)
+				if last {
+					L = 1 // n = len/2 = 0 is the last index
+				}
+				win := func(lo, hi int64) *Val {
+					return &Val{Tag: "window", Fields: map[string]*Val{"lo": intVal(lo), "hi": intVal(hi)}}
+				}
+				bounds := func(v *Val) (int64, int64, bool) {
+					if v == nil || v.Tag != "window" {
+						return 0, 0, false
+					}
+					lo, _ := constant.Int64Val(v.Fields["lo"].C)
+					hi, _ := constant.Int64Val(v.Fields["hi"].C)
+					return lo, hi, true
+				}
+				env := &Env{P: p, Pkg: fi.Pkg, Vars: map[types.Object]*Val{seqObj: intVal(probe), arrObj: win(0, L)}}
 				elem := func(seq int64, tag string) *Val {
 					return &Val{Tag: tag, Fields: map[string]*Val{"v": {Fields: map[string]*Val{"Seq": intVal(seq)}}}}
+				}
+				nPos := func() (int64, bool) {
+					v := env.Vars[nObj]
+					if v == nil || v.C == nil {
+						return 0, false
+					}
+					return constant.Int64Val(v.C)
+				}
+				intOf := func(env *Env, e ast.Expr) int64 {
+					v := env.eval(e)
+					if v == nil || v.C == nil {
+						env.fail(e, "bound that is not a number")
+					}
+					i, _ := constant.Int64Val(v.C)
+					return i
 				}
 				touchedN1 := false
 				env.Hook = func(env *Env, e ast.Expr) (*Val, bool) {
@@ -157,73 +190,68 @@ func propC18(p *Prog, r *Report) {
 						return nil, false
 					}
 					switch x := e.(type) {
-					case *ast.IndexExpr:
-						if objOf(info, x.X) != arrObj {
+					case *ast.CallExpr:
+						if id, ok := x.Fun.(*ast.Ident); ok && id.Name == "len" && len(x.Args) == 1 {
+							if lo, hi, ok := bounds(env.eval(x.Args[0])); ok {
+								return intVal(hi - lo), true
+							}
+						}
+					case *ast.SliceExpr:
+						lo, hi, ok := bounds(env.eval(x.X))
+						if !ok || x.Max != nil {
 							return nil, false
 						}
-						if objOf(info, x.Index) == nObj {
-							return &Val{Ptr: elem(a, "arr[n]")}, true
+						nlo, nhi := lo, hi
+						if x.Low != nil {
+							nlo = lo + intOf(env, x.Low)
 						}
-						if be, ok := ast.Unparen(x.Index).(*ast.BinaryExpr); ok && be.Op == token.ADD && objOf(info, be.X) == nObj {
-							if v, ok := constInt(info, be.Y); ok && v == 1 {
-								touchedN1 = true
-								if last {
-									env.fail(e, "arr[n+1] while n is the last index")
-								}
-								return &Val{Ptr: elem(b, "arr[n+1]")}, true
-							}
+						if x.High != nil {
+							nhi = lo + intOf(env, x.High)
+						}
+						if nlo < lo || nhi > hi || nlo > nhi {
+							env.fail(e, "re-slice outside the window")
+						}
+						return win(nlo, nhi), true
+					case *ast.IndexExpr:
+						lo, hi, ok := bounds(env.eval(x.X))
+						if !ok {
+							return nil, false
+						}
+						pos := lo + intOf(env, x.Index)
+						if pos < lo || pos >= hi {
+							env.fail(e, "arr[n+1] while n is the last index")
+						}
+						n, okN := nPos()
+						switch {
+						case okN && pos == n:
+							return &Val{Ptr: elem(a, "arr[n]")}, true
+						case okN && pos == n+1:
+							touchedN1 = true
+							return &Val{Ptr: elem(b, "arr[n+1]")}, true
 						}
 						env.fail(e, "index other than n / n+1")
-					case *ast.BinaryExpr:
-						// n == len(arr)-1
-						if x.Op == token.EQL || x.Op == token.NEQ {
-							isN := func(y ast.Expr) bool { return objOf(info, y) == nObj }
-							isLast := func(y ast.Expr) bool {
-								be, ok := ast.Unparen(y).(*ast.BinaryExpr)
-								if !ok || be.Op != token.SUB {
-									return false
-								}
-								c, ok := ast.Unparen(be.X).(*ast.CallExpr)
-								if !ok || len(c.Args) != 1 || objOf(info, c.Args[0]) != arrObj {
-									return false
-								}
-								v, ok := constInt(info, be.Y)
-								return ok && v == 1
-							}
-							if (isN(x.X) && isLast(x.Y)) || (isN(x.Y) && isLast(x.X)) {
-								return boolVal(last == (x.Op == token.EQL)), true
-							}
-						}
-					case *ast.Ident:
-						if objOf(info, x) == nObj {
-							return &Val{Tag: "n"}, true
-						}
 					}
 					return nil, false
 				}
-				visited, exit, err := body.WalkPath(env)
+				_, exit, err := body.WalkPath(env)
 				action := ""
 				if err != nil {
 					action = "error: " + err.Error()
 				} else {
+					n, _ := nPos()
 					if rs := body.returnStmt(exit); rs != nil && len(rs.Results) == 1 {
-						if ix, ok := ast.Unparen(rs.Results[0]).(*ast.IndexExpr); ok && objOf(info, ix.X) == arrObj && objOf(info, ix.Index) == nObj {
+						action = "return " + types.ExprString(rs.Results[0])
+						if v, err := env.Eval(rs.Results[0]); err == nil && v != nil && v.Ptr != nil && v.Ptr.Tag == "arr[n]" {
 							action = "return arr[n]"
-						} else {
-							action = "return " + types.ExprString(rs.Results[0])
 						}
-					}
-					for _, id := range visited {
-						if as, ok := body.Nodes[id].Ast.(*ast.AssignStmt); ok && len(as.Lhs) == 1 && objOf(info, as.Lhs[0]) == arrObj {
-							se, ok := ast.Unparen(as.Rhs[0]).(*ast.SliceExpr)
-							switch {
-							case ok && objOf(info, se.X) == arrObj && se.Low == nil && objOf(info, se.High) == nObj:
-								action = "left of n"
-							case ok && objOf(info, se.X) == arrObj && se.High == nil && isNPlus1(info, se.Low, nObj):
-								action = "right of n"
-							default:
-								action = "window := " + types.ExprString(as.Rhs[0])
-							}
+					} else if lo, hi, ok := bounds(env.Vars[arrObj]); ok {
+						switch {
+						case lo == 0 && hi == n:
+							action = "left of n"
+						case lo == n+1 && hi == L:
+							action = "right of n"
+						default:
+							action = fmt.Sprintf("window := [%d, %d) of [0, %d) with n = %d", lo, hi, L, n)
 						}
 					}
 				}
@@ -340,10 +368,8 @@ func c18Tail(p *Prog, r *Report, fi *FuncInfo) {
 				return nil, false
 			}
 			if _, exit, err := fin.WalkPath(env); err == nil {
-				if rs := fin.returnStmt(exit); rs != nil && len(rs.Results) == 1 {
-					if cl, ok := ast.Unparen(rs.Results[0]).(*ast.CompositeLit); ok && len(cl.Elts) == 0 {
-						nilSafe = true
-					}
+				if rs := fin.returnStmt(exit); rs != nil && len(rs.Results) == 1 && isZeroValueExpr(linfo, lb, rs.Results[0]) {
+					nilSafe = true
 				}
 			} else if os.Getenv("FSDBCHECK_DEBUG") != "" {
 				fmt.Fprintln(os.Stderr, "C18.c nil-search evaluation:", err)
@@ -556,4 +582,52 @@ func c18IndexWindow(p *Prog, r *Report, fi *FuncInfo, loop *ast.ForStmt, arrObj,
 		return true
 	})
 	r.Check(initOK, "C18.b", kBinarySearch+"#initial-window", p.pos(loop), "the search starts with the window [0, len(arr))", "the search does not start with the whole array as its window")
+}
+
+// isZeroValueExpr: T{}, *new(T), or a variable declared without a value and never assigned.
+func isZeroValueExpr(info *types.Info, fi *FuncInfo, e ast.Expr) bool {
+	switch x := ast.Unparen(e).(type) {
+	case *ast.CompositeLit:
+		return len(x.Elts) == 0
+	case *ast.StarExpr:
+		if c, ok := ast.Unparen(x.X).(*ast.CallExpr); ok {
+			if id, ok := c.Fun.(*ast.Ident); ok && id.Name == "new" {
+				return true
+			}
+		}
+	case *ast.Ident:
+		o := info.Uses[x]
+		if o == nil {
+			return false
+		}
+		declared, assigned := false, false
+		for _, f := range fi.Pkg.Syntax {
+			if f.Pos() > o.Pos() || o.Pos() > f.End() {
+				continue
+			}
+			ast.Inspect(f, func(n ast.Node) bool {
+				switch s := n.(type) {
+				case *ast.ValueSpec:
+					for _, nm := range s.Names {
+						if info.Defs[nm] == o && len(s.Values) == 0 {
+							declared = true
+						}
+					}
+				case *ast.AssignStmt:
+					for _, l := range s.Lhs {
+						if objOf(info, l) == o {
+							assigned = true
+						}
+					}
+				case *ast.UnaryExpr:
+					if s.Op == token.AND && objOf(info, s.X) == o {
+						assigned = true
+					}
+				}
+				return true
+			})
+		}
+		return declared && !assigned
+	}
+	return false
 }
